@@ -176,6 +176,13 @@ EMPTY_SHAPE_PROFILES = [_wrap(b) for b in (
     "    not:\n      or:\n        - and: []\n        - propertyConstraints:\n            ex.p:\n              minCount: 1\n",
 )]
 
+# one validation with 70 quantified constraints side by side (more than any fixed-size table of names a translator may keep)
+MANY_QUANTIFIED_PROFILE = _wrap("    propertyConstraints:\n" + "".join(
+    "      ex.c%d:\n        %s\n" % (i, ["nested:\n          propertyConstraints:\n            ex.p:\n              minCount: 1",
+                                         "atLeast:\n          count: 1\n          validation:\n            propertyConstraints:\n              ex.p:\n                minCount: 1",
+                                         "atMost:\n          count: 2\n          validation:\n            propertyConstraints:\n              ex.q:\n                minCount: 1"][i % 3])
+    for i in range(70)))
+
 GEN_ERROR_PROFILES = [
     # unknown prefix in targetClass
     "profile: x\nviolation: [v]\nvalidations:\n  v:\n    targetClass: nope.Unit\n    propertyConstraints:\n      doc.a:\n        minCount: 1\n",
